@@ -206,8 +206,9 @@ def main(argv):
     ck.rule = ("histories of add/rm/freeze/defrost/clear/autoFreeze/copy over a 3-letter alphabet (20% of histories use "
                "3-4 bytes mixing ASCII, 0x7f and bytes >= 0x80; 7% dense fan-out histories; 10% autoFreeze histories removing a proper prefix), keys of length 0..2, 0..3 or 0..5 chosen to form prefix chains (extend / truncate / "
                "perturb a stored key), each mutating op followed by `chk`: every query string up to length 3, 4 or 6 "
-               "observed through getLongest/get/has on the current representation; plus every history of <= 3 "
-               "(thorough: 4) operations over the 7 keys of length <= 2 on {a,b} with autoFreeze on and off. "
+               "observed through getLongest/get/has on the current representation; plus every history of <= 2 "
+               "(thorough: <= 3) operations over the 7 keys of length <= 2 on {a,b} with autoFreeze on and off and a "
+               "sample of 1000 (thorough: 30000) histories of the next depth. "
                "Non-trivial = at least one successful lookup observed; distinct by SHA-1 of the op text")
     ck.assumptions = ["keys and queries are NUL-terminated C strings without embedded NUL",
                       "char is signed (x86-64); the model orders characters by their signed value"]
@@ -219,18 +220,17 @@ def main(argv):
     if ck.replay:
         ck.correspond(hb, db, [read_replay(ck.replay)], label="trie", nontrivial=nontrivial, ubsan_is_violation=r"trie\.(cpp|tpp|hpp)")
     else:
-        n = 700 if ck.tier == "quick" else 40000
+        n = 700 if ck.tier == "quick" else 10000
         hs = CORPUS + [gen_history(ck.rng) for _ in range(n)]
-        ck.correspond(hb, db, hs, label="trie", nontrivial=nontrivial, timeout=1800, ubsan_is_violation=r"trie\.(cpp|tpp|hpp)")
+        ck.correspond(hb, db, hs, label="trie", nontrivial=nontrivial, timeout=7200, ubsan_is_violation=r"trie\.(cpp|tpp|hpp)")
+        # every history of <= 2 (thorough: <= 3) operations, the next depth sampled
         depth = 3 if ck.tier == "quick" else 4
         ex = []
         for d in range(1, depth + 1):
-            if d == depth and ck.tier == "quick":
-                # the deepest level is sampled in the quick tier, complete in the thorough tier
-                allh = list(exhaustive(d, 0)) + list(exhaustive(d, 1))
-                ex += ck.rng.sample(allh, 1000)
-            else:
-                ex += list(exhaustive(d, 0)) + list(exhaustive(d, 1))
+            allh = list(exhaustive(d, 0)) + list(exhaustive(d, 1))
+            if d == depth:
+                allh = ck.rng.sample(allh, 1000 if ck.tier == "quick" else 30000)
+            ex += allh
         ck.cov["counters"]["exhaustive_depth"] = depth
-        ck.correspond(hb, db, ex, label="exhaustive", nontrivial=nontrivial, timeout=3000, ubsan_is_violation=r"trie\.(cpp|tpp|hpp)")
+        ck.correspond(hb, db, ex, label="exhaustive", nontrivial=nontrivial, timeout=7200, ubsan_is_violation=r"trie\.(cpp|tpp|hpp)")
     ck.finish(META["level_text"])
